@@ -46,11 +46,11 @@ type Scenario struct {
 	DisableCheckpoints bool        `json:"disable_checkpoints"`
 	// OldChain: every header is older than 24 h, so HeaderService.IsCurrent() is false at any
 	// height (the common case of an initial sync); otherwise the headers are recent.
-	OldChain bool `json:"old_chain,omitempty"`
-	Checkpoints        []int       `json:"checkpoints"` // block ids; empty = only genesis
-	Initial            []int       `json:"initial"`     // blocks stored before the engine starts
-	Pick               int         `json:"pick"`        // answer to sync-peer selection (mod candidates)
-	Forbidden          int         `json:"forbidden"`   // block id on the forbidden list (0 = none)
+	OldChain    bool  `json:"old_chain,omitempty"`
+	Checkpoints []int `json:"checkpoints"` // block ids; empty = only genesis
+	Initial     []int `json:"initial"`     // blocks stored before the engine starts
+	Pick        int   `json:"pick"`        // answer to sync-peer selection (mod candidates)
+	Forbidden   int   `json:"forbidden"`   // block id on the forbidden list (0 = none)
 	// C07: BadBlock is the header whose delivery is misbehaviour (the forbidden block, or the
 	// block contradicting a checkpoint); BadNode delivers it; BanExpected: the engine bans for it.
 	BadBlock    int   `json:"bad_block,omitempty"`
